@@ -26,7 +26,7 @@ def is_acquire(s: ast.stmt):
 
 def check(ctx):
     repo = ctx.repo
-    ctx.rule("R15.10", "the final frame is written exactly once, also when the run is cancelled at a step that was just saved (shared with C05 R05.9)", 2)
+    ctx.rule("R15.10", "the final frame is written exactly once, also when the run is cancelled at a step that was just saved (shared with C05 R05.9)", 1)
     ctx.rule("R15.9", "an error in the update or in the recorder is never swallowed: every handler in the solver / operator / recorder modules "
                       "that does not re-raise is one of the confirmed ones (refused psi update, name retry, cancellation)", 4)
     ctx.rule("R15.8", "the partial solution can be assembled from a file with zero recorded steps: every aggregation of a "
@@ -47,13 +47,15 @@ def check(ctx):
     from ..effects import fresh_outputs, input_purity
     fresh_outputs(ctx, "R15.6", "after Ctrl-C inside update() the Runner writes (or keeps) the previous step's state, part of which has already been overwritten by the abandoned step: the file's last frame is not the state of any step")
     input_purity(ctx, "R15.7", modules=("tdgl.solver", "tdgl.finite_volume"), min_functions=60, consequence='an update() abandoned by an interrupt has already modified the arrays of the previous state that the Runner goes on to save')
-    from ..report import Shared
-    from . import c05
     frs_ = repo.func(RUNNER, "Runner._run_stage")
-    cfg_, ev_, _p, _pr, _v = c05.typestate(frs_)
-    c05.final_step_saved_once(Shared(ctx, {"R05.9": "R15.10"},
-                                     consequence="a run cancelled inside the update of a step that was just saved holds that frame twice (the second one with "
-                                                 "an empty record): the file has one frame more than was recorded before the stop"), frs_, cfg_, ev_)
+    from ..run_rules import loop_verdicts
+    Vl = loop_verdicts(repo)
+    bad10 = Vl["final_once"] + [x for x in Vl["cancel"] if "frames saved at" in x]
+    ctx.ob("R15.10", "every step is written at most once: the final step of a finished stage and the interrupted step of a cancelled one "
+                     "are saved exactly once (loop traces, save_every = 1, 2, 3)", not bad10, detail=bad10[:3], where=frs_.fq,
+           construct="saves on the last iteration", loc=loc(frs_, frs_.node), message=f"{bad10[:1]}",
+           consequence="a run cancelled inside the update of a step that was just saved holds that frame twice (the second one with "
+                       "an empty record): the file has one frame more than was recorded before the stop")
     swallowed_errors(ctx)
     empty_records(ctx)
     ctx.assume("h5py.File.close() flushes; the OS honours exclusive creation")
@@ -296,75 +298,18 @@ def open_modes(ctx):
 def cancellation(ctx):
     repo = ctx.repo
     f = repo.func(RUNNER, "Runner._run_stage")
-    fn = f.node
-    hs = [h for h in ast.walk(fn) if isinstance(h, ast.ExceptHandler) and h.type is not None and "KeyboardInterrupt" in norm(h.type)]
-    if len(hs) != 1:
-        raise AnalysisError("_run_stage no longer has one KeyboardInterrupt handler")
-    h = hs[0]
-    pm = parent_map(fn)
-    rets = [n for n in own_nodes(fn) if isinstance(n, ast.Return)]
-    flag = None
-    if len(rets) == 1 and isinstance(rets[0].value, ast.UnaryOp) and isinstance(rets[0].value.op, ast.Not) and isinstance(rets[0].value.operand, ast.Name):
-        flag = rets[0].value.operand.id
-    breaks = [n for n in ast.walk(h) if isinstance(n, ast.Break)]
-    bad = []
-    for b in breaks:
-        blk = pm[id(b)][0]
-        body = getattr(blk, pm[id(b)][1])
-        prev = [norm(s) for s in body[: body.index(b)]]
-        if f"{flag} = True" not in prev:
-            bad.append(f"L{b.lineno}")
-    others = [n for n in ast.walk(h) if isinstance(n, (ast.Return, ast.Raise))]
-    init_false = any(isinstance(n, ast.Assign) and norm(n) == f"{flag} = False" for n in own_nodes(fn))
-    ctx.ob("R15.4", "interrupt handler: every exit is `<flag> = True; break` or falls through to resume", not bad and not others and bool(breaks) and flag is not None and init_false,
-           detail={"flag": flag, "breaks": len(breaks), "unflagged": bad, "other_exits": [norm(o) for o in others]}, where=f.fq,
-           construct="KeyboardInterrupt handler", loc=loc(f, h), message="interrupt handler leaves the loop without recording the cancellation",
-           consequence="a cancelled stage is reported as completed (or the interrupt propagates and no solution is returned)")
-    ok = flag is not None
-    ctx.ob("R15.4", "_run_stage returns `not <cancellation flag>`", ok, detail=[norm(r) for r in rets], where=f.fq, construct="return of _run_stage",
-           message=f"{[norm(r) for r in rets]}", consequence="the caller cannot tell a cancelled thermalisation from a completed one")
     fr = repo.func(RUNNER, "Runner.run")
-    # by paths, not by shape: (i) after the recorded stage (save=True) has been entered every return is `True`;
-    # (ii) a return of anything else is guarded by `not <result of the thermalisation stage>` (other guards may be added)
-    from ..cfg import build_cfg
-    cfgr = build_cfg(fr.node)
-    pmr = parent_map(fr.node)
-
-    def stage_calls(save_value):
-        out = []
-        for n in cfgr.nodes:
-            if n.kind == "stmt" and n.ast is not None:
-                for c in ast.walk(n.ast):
-                    if isinstance(c, ast.Call) and norm(c.func) == "self._run_stage" and any(
-                            k.arg == "save" and isinstance(k.value, ast.Constant) and k.value.value is save_value for k in c.keywords):
-                        out.append(n)
-        return out
-    rec, therm = stage_calls(True), stage_calls(False)
-    if len(rec) != 1 or len(therm) != 1:
-        raise AnalysisError(f"Runner.run no longer calls self._run_stage once with save=False and once with save=True ({len(therm)}/{len(rec)})")
-    sflag = None
-    if isinstance(therm[0].ast, ast.Assign) and isinstance(therm[0].ast.targets[0], ast.Name):
-        sflag = therm[0].ast.targets[0].id
-    rets_n = [n for n in cfgr.nodes if n.ast is not None and isinstance(n.ast, ast.Return)]
-    rr = []
-    ok = sflag is not None
-    for rn in rets_n:
-        val = norm(rn.ast.value) if rn.ast.value is not None else "None"
-        after_rec = cfgr.path(rec[0].id, rn.id, skip_edges=("exc",)) is not None
-        gs = [("" if br == "true" else "not ") + norm(g.test) for g, br in guards_of(fr.node, rn.ast, pmr, normal=True) if isinstance(g, ast.If)]
-        rr.append((val, gs, "after the recorded stage" if after_rec else "before it"))
-        if after_rec:
-            ok = ok and val == "True"
-        elif val != "True":
-            flags = {sflag}
-            for _ in range(3):          # copies of the stage result (`success = <result>`)
-                for st_ in own_nodes(fr.node):
-                    if isinstance(st_, ast.Assign) and isinstance(st_.value, ast.Name) and st_.value.id in flags:
-                        flags |= {t.id for t in st_.targets if isinstance(t, ast.Name)}
-            ok = ok and sflag is not None and any(f"not {fl}" in gs for fl in flags)
-    ok = ok and any(v == "True" and w.startswith("after") for v, _, w in rr)
-    ctx.ob("R15.4", "run() returns False only for a cancelled thermalisation, True once the recorded stage was entered", ok,
-           detail=rr, where=fr.fq, construct="returns of run()", message=f"{rr}",
+    from ..run_rules import loop_verdicts, run_verdicts
+    Vl, Vr = loop_verdicts(repo), run_verdicts(repo)
+    ctx.ob("R15.4", "interrupt handler: a cancelled stage stops updating, asks the user exactly when pause_on_interrupt is set, resumes on 'y' and "
+                    "otherwise ends with the frame of the interrupted step", not Vl["cancel"], detail=Vl["cancel"][:4], where=f.fq,
+           construct="KeyboardInterrupt handler", loc=loc(f, f.node), message=f"interrupt handler leaves the loop without recording the cancellation: {Vl['cancel'][:1]}",
+           consequence="a cancelled stage is reported as completed (or the interrupt propagates and no solution is returned)")
+    wrong_ret = [x for x in Vl["cancel"] if "returns" in x]
+    ctx.ob("R15.4", "_run_stage returns False exactly when the stage was cancelled", not wrong_ret, detail=wrong_ret[:3], where=f.fq,
+           construct="return of _run_stage", message=f"{wrong_ret[:1]}", consequence="the caller cannot tell a cancelled thermalisation from a completed one")
+    ctx.ob("R15.4", "run() returns False only for a cancelled thermalisation, True once the recorded stage was entered", not Vr["result"],
+           detail=Vr["result"][:3], where=fr.fq, construct="returns of run()", message=f"{Vr['result'][:1]}",
            consequence="a cancelled recorded stage returns no Solution although frames were written")
     fs = repo.func(SOLVER, "TDGLSolver.solve")
     pm2 = parent_map(fs.node)
